@@ -612,9 +612,13 @@ def inv (k : Kind) (s : SR α) (c : Consts α) (x y : α) : Except String (α ×
 
 /-! ## transform.go -/
 
+/-- `strings.EqualFold(code, "WGS84")` (fix b165df1; before it the literal comparison `!= "WGS84"` of
+proj4js 2.3.12). On the ASCII codes that `projString` produces, case folding is `toLower`. -/
+def isWGS84Code (code : String) : Bool := code.toLower == "wgs84"
+
 def checkNotWGS (source dest : SR α) : Bool :=
   match source.datum with
-  | some d => (d.datum_type == pjd3Param || d.datum_type == pjd7Param) && dest.datumCode != "WGS84"
+  | some d => (d.datum_type == pjd3Param || d.datum_type == pjd7Param) && !isWGS84Code dest.datumCode
   | none => false
 
 def wgs84Def : String := "+title=WGS 84 (long/lat) +proj=longlat +ellps=WGS84 +datum=WGS84 +units=degrees"
